@@ -79,6 +79,7 @@ type outcome struct {
 	applied bool
 	desc    string // rtype= msg= field= orig= of the edited record
 	lay     string
+	held    int // datagrams withheld by the second fault (hold=)
 }
 
 func h8(b []byte) string {
@@ -530,6 +531,9 @@ func (j job) ident() string {
 	default:
 		s += fmt.Sprintf(" dir=%s rec=%d", dirName(j.ed.dir), j.ed.rec)
 	}
+	if j.ed.hold > 0 {
+		s += fmt.Sprintf(" hold=%d", j.ed.hold)
+	}
 	return s
 }
 
@@ -565,6 +569,7 @@ func parseJob(desc string) (job, bool) {
 	}
 	j.ed.inj, _ = hx.KV(desc, "inj")
 	j.ed.mode, _ = hx.KV(desc, "mode")
+	j.ed.hold = hx.KVInt(desc, "hold")
 	return j, j.ed.kind != ""
 }
 
@@ -642,6 +647,9 @@ func run(j job) (string, string) {
 	if (j.ed.kind == "flip" || j.ed.kind == "setlen" || j.ed.kind == "splice" || j.ed.kind == "drop") && o.net != nil {
 		obs += fmt.Sprintf(" same=%d", sameKind(o.net, j.ed.dir, j.cf.stack == "dtlcp"))
 	}
+	if j.ed.hold > 0 {
+		obs += fmt.Sprintf(" held=%d", o.held)
+	}
 	if (j.ed.kind == "splice" || j.ed.kind == "drop") && o.net != nil {
 		obs += fmt.Sprintf(" hvr=%d", countHVR(o.net, j.cf.stack == "dtlcp"))
 	}
@@ -673,7 +681,7 @@ func configs(stack string) []config {
 
 // generate enumerates the edits of one configuration from the records of its untampered run.
 func generate(cf config, base outcome, tier string, rnd *hx.Rand) []job {
-	var jobs []job
+	var jobs, held []job
 	dtls := cf.stack == "dtlcp"
 	n := base.net
 	masks := []byte{0x01, 0x80, 0xFF}
@@ -681,7 +689,7 @@ func generate(cf config, base outcome, tier string, rnd *hx.Rand) []job {
 		masks = []byte{0x01, 0x02, 0x04, 0x08, 0x10, 0x20, 0x40, 0x80, 0xFF}
 	}
 	every := tier == "thorough" || !dtls // the stream stack is cheap: every position in both tiers
-	injs := []string{"alertw", "alertf", "hs0", "ccs", "app"}
+	injs := []string{"alertw", "alertf", "hs0", "ccs", "app", "hsd"}
 	for d := 0; d < 2; d++ {
 		recs := n.seen[d]
 		for i, r := range recs {
@@ -726,6 +734,19 @@ func generate(cf config, base outcome, tier string, rnd *hx.Rand) []job {
 					jobs = append(jobs, job{cf: cf, ed: e})
 				}
 			}
+			// TWO cooperating faults (datagram stack): a plaintext handshake message is altered (every
+			// splice; one bit at every field boundary) AND the answer of its reader is withheld once, so
+			// that the sender's retransmission timer fires and the reader, which already acted on the
+			// altered copy, is then given the genuine one
+			if dtls && fm.rtype == "hs" {
+				for _, e := range spliceEdits(fm, r.raw, d, i) {
+					e.hold = 1
+					held = append(held, job{cf: cf, ed: e})
+				}
+				for _, o := range fm.boundaryOffsets(len(r.raw)) {
+					held = append(held, job{cf: cf, ed: edit{kind: "flip", dir: d, rec: i, off: o, mask: 0x01, hold: 1}})
+				}
+			}
 			jobs = append(jobs, job{cf: cf, ed: edit{kind: "drop", dir: d, rec: i}})
 			jobs = append(jobs, job{cf: cf, ed: edit{kind: "dup", dir: d, rec: i}})
 			if i+1 < len(recs) {
@@ -762,7 +783,7 @@ func generate(cf config, base outcome, tier string, rnd *hx.Rand) []job {
 			}
 		}
 	}
-	return jobs
+	return append(jobs, held...)
 }
 
 func main() {
